@@ -21,6 +21,11 @@ class PathBudgetExceeded(Exception):
     pass
 
 
+class InfeasiblePath(BaseException):
+    """Raised inside the analysed code when the executor finds the current path condition unsatisfiable (BaseException: the analysed
+    code's own `except Exception` handlers must not swallow it)."""
+
+
 NEG = {"==": "!=", "!=": "==", ">": "<=", ">=": "<", "<": ">=", "<=": ">"}
 
 
@@ -123,6 +128,7 @@ class Explorer:
         # general position); the cut is recorded and becomes part of the path condition.  Off by default:
         # where equalities are what a check is about (index algebra, finite domains) both sides are explored.
         self.generic_eq = False
+        self.infeasible_paths = 0
 
     # -- one run ------------------------------------------------------------
     def _feasible(self, path_conds, cond):
@@ -201,8 +207,9 @@ class Explorer:
                 if can_f:
                     _decisions.append((cond, False, False))
                     return False
-                # path condition itself infeasible (should not happen)
-                raise SymError("infeasible path reached in %s" % self.name)
+                # neither outcome is satisfiable: the path condition itself is unsatisfiable (it was entered on an `unknown` feasibility
+                # answer -- branch queries are not retried).  No input follows this path: abandon it.
+                raise InfeasiblePath()
 
             def decide(op, d):
                 return decide_cond(("rel", op, d))
@@ -216,8 +223,12 @@ class Explorer:
                 ctx.abs_as_atom = True
             result = None
             exc = None
+            infeasible = False
             try:
                 result = fn()
+            except InfeasiblePath:
+                infeasible = True
+                self.infeasible_paths += 1
             except (SymError, PathBudgetExceeded):
                 raise
             except Exception as e:  # the analysed code raised: an outcome of this path
@@ -226,7 +237,10 @@ class Explorer:
                 ctx.decide = old
                 ctx.decide_cond = old_c
                 ctx.abs_as_atom = old_abs
-            self.paths.append(PathResult(decisions, result, exc, unknown[0]))
+            if not infeasible:
+                self.paths.append(PathResult(decisions, result, exc, unknown[0]))
+        if not self.paths:
+            raise SymError("%s: every explored path turned out infeasible" % self.name)
         return self.paths
 
 
